@@ -1500,6 +1500,32 @@ def check_attr_values_unescaped(ctx, f, rule="R-CHK"):
     ctx.floor(rule, "accessors of xml::decode::AttrValue", n, 2)
 
 
+def check_attr_ascii_after_unescape(ctx, f, rule="R-GRD"):
+    """An accessor of xml::decode::AttrValue that promises ASCII (`ascii_*` / `*_ascii_*`) hands out the *unescaped* value, so
+    it is the unescaped value that has to be ASCII: success requires `is_ascii(X)` with X derived from the result of
+    unescape_value.  (A character reference such as `&#233;` is ASCII before unescaping and is not afterwards; the writer
+    would then emit text that the reader refuses.)"""
+    from engine.rules import pred_matcher, guard_edges
+    n = 0
+    g = pred_matcher(r"(^|::)is_ascii$", (r"unescape_value\(",))
+    for name, r in sorted(f.fns.items()):
+        if r.get("impl_adt") != "xml::decode::AttrValue" or not r.get("has_body") or r.get("impl_trait"):
+            continue
+        if "ascii" not in name.rsplit("::", 1)[-1] or r.get("vis") != "pub":
+            continue
+        b = f.body(name)
+        if b is None:
+            continue
+        n += 1
+        ctx.saw_fn(name)
+        mp = MustPass(f, lambda c: False, guard_fn=lambda bd, s_, bb: guard_edges(bd, s_, bb, g), name="is_ascii(unescaped value)")
+        ok = mp.holds(name)
+        ctx.ob(rule, "%s:ascii-after-unescape" % short(name), ok,
+               "%s succeeds only if the value it hands out — the attribute after unescape_value — is ASCII (the test looks at the "
+               "unescaped text, not at the raw attribute)" % short(name), where=b.loc, detail=None if ok else why(f, mp, name))
+    ctx.floor(rule, "ASCII accessors of xml::decode::AttrValue", n, 2)
+
+
 def check_revocation_lookup(ctx, f, which, rule="R-GRD"):
     """`contains(serial)` answers true exactly for an entry whose serial equals the one asked for — nothing else
     (dates, position) takes part in the decision."""
